@@ -166,9 +166,15 @@ func runC37(c *Ctx) {
 				continue // rejection
 			}
 			empty := r.Atom(func(a *Atom) bool { return strings.HasPrefix(a.Key, "\"\" ==") })
-			semi := r.Atom(func(a *Atom) bool { return strings.HasPrefix(a.Key, "strings.Contains(") && strings.Contains(a.Key, "\";\")") })
-			sel := r.Atom(func(a *Atom) bool { return strings.HasPrefix(a.Key, "strings.HasPrefix(") && strings.Contains(a.Key, "\"SELECT\"") })
-			with := r.Atom(func(a *Atom) bool { return strings.HasPrefix(a.Key, "strings.HasPrefix(") && strings.Contains(a.Key, "\"WITH\"") })
+			semi := r.Atom(func(a *Atom) bool {
+				return strings.HasPrefix(a.Key, "strings.Contains(") && strings.Contains(a.Key, "\";\")")
+			})
+			sel := r.Atom(func(a *Atom) bool {
+				return strings.HasPrefix(a.Key, "strings.HasPrefix(") && strings.Contains(a.Key, "\"SELECT\"")
+			})
+			with := r.Atom(func(a *Atom) bool {
+				return strings.HasPrefix(a.Key, "strings.HasPrefix(") && strings.Contains(a.Key, "\"WITH\"")
+			})
 			lim := r.Atom(func(a *Atom) bool { return strings.Contains(a.Key, "MatchString(") })
 			switch {
 			case empty == nil || empty.B:
@@ -588,7 +594,9 @@ func runC38(c *Ctx) {
 			// returning a non-nil proxy URL requires guardLLMURL to have passed
 			if len(r.Out.Vals) == 2 && r.Out.Vals[1].Str == "nil" && r.Out.Vals[0].Str != "nil" {
 				g := r.Calls(func(e *Effect) bool { return e.Callee != nil && e.Callee.Name() == "guardLLMURL" })
-				nilProxy := r.Atom(func(a *Atom) bool { return a.IsBool && strings.Contains(a.Key, "nil ==") && a.B && strings.Contains(a.Key, "#") })
+				nilProxy := r.Atom(func(a *Atom) bool {
+					return a.IsBool && strings.Contains(a.Key, "nil ==") && a.B && strings.Contains(a.Key, "#")
+				})
 				if len(g) == 0 && nilProxy == nil {
 					ok = false
 				}
